@@ -1,4 +1,5 @@
 import MgProof.C13.LemmasEpollReady
+import MgProof.C13.LemmasSelectFd
 /-!
 # C13 — agreement: for externally driven, draining scripts (class P) the outcome of every
 context is a function of the kernel history alone, whatever the back-end
@@ -26,95 +27,954 @@ def SameBut (d k : Desc) : Prop :=
   d.err = k.err ∧ d.shut = k.shut
 
 /-- never shut down, never reset, `HUP` only with end-of-stream: all a peer can produce -/
-def Plain (d : Desc) : Prop := d.shut = false ∧ d.err = false ∧ (d.hup = true → d.eof = true)
+def Plain (d : Desc) : Prop :=
+  d.shut = false ∧ d.err = false ∧ (d.hup = true → d.eof = true) ∧ (d.eof = true → d.pwr = false)
 
 theorem write_sameBut {d k : Desc} (n : Nat) (h : SameBut d k) :
     SameBut (d.write n).1 (k.write n).1 ∧ (d.write n).2 = (k.write n).2 ∧
     ((d.write n).1.avail + d.arrived = d.avail + (d.write n).1.arrived) := by
-  obtain ⟨h1, h2, h3, h4, h5, h6, h7⟩ := h
-  unfold Desc.write
-  rw [h3, h7, h1, h6]
-  split
-  · exact ⟨⟨h1, h2, h3, h4, h5, h6, h7⟩, rfl, by omega⟩
-  · split
-    · split
-      · split
-        · exact ⟨⟨h1, h2, h3, h4, h5, h6, h7⟩, rfl, by omega⟩
-        · exact ⟨⟨h1, h2, h3, h4, h5, rfl, h7⟩, rfl, by simp⟩
-      · exact ⟨⟨h1, h2, h3, h4, h5, h6, h7⟩, rfl, by omega⟩
-    · refine ⟨⟨h1, ?_, h3, h4, h5, h6, h7⟩, rfl, ?_⟩
-      · show d.arrived + n = k.arrived + n; omega
-      · show d.avail + n + d.arrived = d.avail + (d.arrived + n); omega
+  obtain ⟨dk, da, dar, dp, de, dh, der, dsh⟩ := d
+  obtain ⟨kk, ka, kar, kp, ke, kh, ker, ksh⟩ := k
+  simp only [SameBut] at h
+  obtain ⟨rfl, rfl, rfl, rfl, rfl, rfl, rfl⟩ := h
+  unfold Desc.write SameBut
+  cases dp <;> cases dsh <;> cases dk <;> cases der <;> simp <;> omega
 
 theorem hclose_sameBut {d k : Desc} (h : SameBut d k) :
     SameBut d.hclose.1 k.hclose.1 ∧ d.hclose.2 = k.hclose.2 ∧
     d.hclose.1.avail = d.avail ∧ d.hclose.1.arrived = d.arrived := by
-  obtain ⟨h1, h2, h3, h4, h5, h6, h7⟩ := h
-  unfold Desc.hclose
-  rw [h3]
-  split
-  · exact ⟨⟨h1, h2, h3, h4, h5, h6, h7⟩, rfl, rfl, rfl⟩
-  · exact ⟨⟨h1, h2, rfl, rfl, h5, h6, h7⟩, rfl, rfl, rfl⟩
+  obtain ⟨dk, da, dar, dp, de, dh, der, dsh⟩ := d
+  obtain ⟨kk, ka, kar, kp, ke, kh, ker, ksh⟩ := k
+  simp only [SameBut] at h
+  obtain ⟨rfl, rfl, rfl, rfl, rfl, rfl, rfl⟩ := h
+  unfold Desc.hclose SameBut
+  cases dp <;> simp
 
 theorem pclose_sameBut {d k : Desc} (h : SameBut d k) :
     SameBut d.pclose.1 k.pclose.1 ∧ d.pclose.2 = k.pclose.2 ∧
     d.pclose.1.avail = d.avail ∧ d.pclose.1.arrived = d.arrived := by
-  obtain ⟨h1, h2, h3, h4, h5, h6, h7⟩ := h
-  unfold Desc.pclose
-  rw [h1, h3, h5]
-  split
-  · split
-    · exact ⟨⟨h1, h2, h3, h4, h5, h6, h7⟩, rfl, rfl, rfl⟩
-    · exact ⟨⟨h1, h2, rfl, rfl, h5, h6, h7⟩, rfl, rfl, rfl⟩
-  · split
-    · exact ⟨⟨h1, h2, h3, h4, h5, h6, h7⟩, rfl, rfl, rfl⟩
-    · exact ⟨⟨h1, h2, rfl, rfl, rfl, h6, h7⟩, rfl, rfl, rfl⟩
-  · split
-    · exact ⟨⟨h1, h2, h3, h4, h5, h6, h7⟩, rfl, rfl, rfl⟩
-    · exact ⟨⟨h1, h2, rfl, rfl, h5, h6, h7⟩, rfl, rfl, rfl⟩
+  obtain ⟨dk, da, dar, dp, de, dh, der, dsh⟩ := d
+  obtain ⟨kk, ka, kar, kp, ke, kh, ker, ksh⟩ := k
+  simp only [SameBut] at h
+  obtain ⟨rfl, rfl, rfl, rfl, rfl, rfl, rfl⟩ := h
+  unfold Desc.pclose SameBut
+  cases dp <;> cases dk <;> cases dh <;> simp
 
 theorem write_plain {d : Desc} (n : Nat) (h : Plain d) : Plain (d.write n).1 := by
-  obtain ⟨h1, h2, h3⟩ := h
-  unfold Desc.write
-  rw [h1]
-  split
-  · exact ⟨h1, h2, h3⟩
-  · simp only [Bool.false_eq_true, ↓reduceIte]
-    exact ⟨h1, h2, h3⟩
+  obtain ⟨dk, da, dar, dp, de, dh, der, dsh⟩ := d
+  simp only [Plain] at h
+  obtain ⟨rfl, rfl, h3, h4⟩ := h
+  unfold Desc.write Plain
+  cases dp <;> cases de <;> cases dh <;> simp_all
 
 theorem hclose_plain {d : Desc} (h : Plain d) : Plain d.hclose.1 := by
-  obtain ⟨h1, h2, h3⟩ := h
-  unfold Desc.hclose
-  split
-  · exact ⟨h1, h2, h3⟩
-  · exact ⟨h1, h2, fun _ => rfl⟩
+  obtain ⟨dk, da, dar, dp, de, dh, der, dsh⟩ := d
+  simp only [Plain] at h
+  obtain ⟨rfl, rfl, h3, h4⟩ := h
+  unfold Desc.hclose Plain
+  cases dp <;> cases de <;> cases dh <;> simp_all
 
 theorem pclose_plain {d : Desc} (h : Plain d) : Plain d.pclose.1 := by
-  obtain ⟨h1, h2, h3⟩ := h
+  obtain ⟨dk, da, dar, dp, de, dh, der, dsh⟩ := d
+  simp only [Plain] at h
+  obtain ⟨rfl, rfl, h3, h4⟩ := h
+  unfold Desc.pclose Plain
+  cases dp <;> cases dk <;> cases dh <;> cases de <;> simp_all
+
+/-- once the stream has ended a peer cannot change the read end any more -/
+theorem write_ended {d : Desc} (n : Nat) (h : Plain d) (he : d.eof = true) : (d.write n).1 = d := by
+  have := h.2.2.2 he
+  unfold Desc.write; simp [this]
+
+theorem hclose_ended {d : Desc} (h : Plain d) (he : d.eof = true) : d.hclose.1 = d := by
+  have := h.2.2.2 he
+  unfold Desc.hclose; simp [this]
+
+theorem pclose_ended {d : Desc} (he : d.eof = true) :
+    d.pclose.1.eof = true ∧ d.pclose.1.avail = d.avail := by
   unfold Desc.pclose
-  split
-  · split
-    · exact ⟨h1, h2, h3⟩
-    · exact ⟨h1, h2, fun _ => rfl⟩
-  · split
-    · exact ⟨h1, h2, h3⟩
-    · exact ⟨h1, h2, fun _ => rfl⟩
-  · split
-    · exact ⟨h1, h2, h3⟩
-    · exact ⟨h1, h2, fun _ => rfl⟩
+  cases d.kind <;> simp <;> split <;> simp [he]
 
 /-- a plain descriptor that is not readable has nothing queued and its stream has not ended -/
 theorem plain_quiet {d : Desc} (h : Plain d) (hq : d.readable = false) : d.avail = 0 ∧ d.eof = false := by
-  obtain ⟨_, h2, h3⟩ := h
+  obtain ⟨_, h2, h3, _⟩ := h
   unfold Desc.readable Desc.mask Mask.any at hq
   cases hk : d.kind <;> simp [hk] at hq
   · exact ⟨hq.1, hq.2⟩
-  · exact ⟨hq.1.1, hq.1.2⟩
-  · exact ⟨hq.1.1, hq.1.2⟩
+  · exact hq.1.1
+  · exact hq.1.1
 
 /-- a plain descriptor whose stream has ended is readable -/
 theorem plain_eof_readable {d : Desc} (he : d.eof = true) : d.readable = true := by
   unfold Desc.readable Desc.mask Mask.any
   cases hk : d.kind <;> simp [he]
+
+/-! ### the class-P invariant -/
+
+def doneActs (sc : Script) (n : Nat) : List Act := (List.range (min n sc.nIdle)).flatMap sc.onIdle
+
+def K0 (kinds : List Kind) : KSt := ⟨fun d => { kind := kinds.getD d .pipe }⟩
+
+/-- the kernel-only world after the actions performed so far -/
+def Kof (kinds : List Kind) (pre : List Act) (sc : Script) (s : St) : KSt :=
+  kacts s.nds (pre ++ doneActs sc s.nIdle) (K0 kinds)
+
+/-- `x = some c`: context `c` is being visited and may already carry the closed flag -/
+structure PC (x : Option Nat) (kinds : List Kind) (pre : List Act) (sc : Script) (s : St) : Prop where
+  sync : ∀ d, SameBut (s.ds d) ((Kof kinds pre sc s).ds d)
+  cons : ∀ d, s.delivered d + (s.ds d).avail = (s.ds d).arrived
+  plain : ∀ d, Plain (s.ds d)
+  flags : ∀ c ∈ s.ctxList, x ≠ some c → s.flag c = false
+  closedDone : ∀ c, Ev.close c ∈ s.trace → (s.ds c).eof = true ∧ (s.ds c).avail = 0
+  exitPhase : s.toExit = 0 ∨ sc.nIdle < s.nIdle
+  quiet : sc.nIdle < s.nIdle → ∀ c ∈ s.ctxList, (s.ds c).readable = false
+  adds : ∀ c, (Ev.addOk c ∈ s.trace ∨ Ev.addRej c ∈ s.trace) ↔ (Act.add c ∈ pre ∧ c < s.nds)
+  unreg : ∀ c, Ev.addOk c ∉ s.trace → s.delivered c = 0
+  ndsOk : s.nds = kinds.length
+
+theorem PC.congr {x kinds pre sc} {s t : St} (h : PC x kinds pre sc s) (h1 : t.ds = s.ds)
+    (h2 : t.delivered = s.delivered) (h3 : t.flag = s.flag) (h4 : t.ctxList = s.ctxList)
+    (h5 : t.trace = s.trace) (h6 : t.toExit = s.toExit) (h7 : t.nIdle = s.nIdle) (h8 : t.nds = s.nds) :
+    PC x kinds pre sc t := by
+  have hk : Kof kinds pre sc t = Kof kinds pre sc s := by unfold Kof; rw [h7, h8]
+  exact ⟨by rw [h1, hk]; exact h.sync, by rw [h1, h2]; exact h.cons, by rw [h1]; exact h.plain,
+    by rw [h3, h4]; exact h.flags, by rw [h1, h5]; exact h.closedDone, by rw [h6, h7]; exact h.exitPhase,
+    by rw [h1, h4, h7]; exact h.quiet, by rw [h5, h8]; exact h.adds, by rw [h2, h5]; exact h.unreg,
+    by rw [h8]; exact h.ndsOk⟩
+
+/-- an event that is neither an add nor a close -/
+theorem PC.emit_other {x kinds pre sc} {s : St} {e : Ev} (h : PC x kinds pre sc s)
+    (h1 : ∀ c, e ≠ .addOk c) (h2 : ∀ c, e ≠ .addRej c) (h3 : ∀ c, e ≠ .close c) :
+    PC x kinds pre sc (emit e s) := by
+  refine ⟨h.sync, h.cons, h.plain, h.flags, ?_, h.exitPhase, h.quiet, ?_, ?_, h.ndsOk⟩
+  · intro c hc
+    exact h.closedDone c (mem_cons_ne hc (h3 c).symm)
+  · intro c
+    show _ ↔ Act.add c ∈ pre ∧ c < s.nds
+    rw [← h.adds c]
+    constructor
+    · rintro (hh | hh)
+      · exact Or.inl (mem_cons_ne hh (h1 c).symm)
+      · exact Or.inr (mem_cons_ne hh (h2 c).symm)
+    · rintro (hh | hh)
+      · exact Or.inl (List.mem_cons_of_mem _ hh)
+      · exact Or.inr (List.mem_cons_of_mem _ hh)
+  · intro c hc
+    exact h.unreg c (fun hh => hc (List.mem_cons_of_mem _ hh))
+
+/-! ### callbacks of a class-P script -/
+
+theorem cbRead_P {pre : List Act} {sc : Script} (hp : ClassP pre sc) (c : Nat) (s : St) :
+    cbRead sc c s = emit (.read c (s.ds c).avail ((s.ds c).eof || (s.ds c).err))
+      { s with ds := upd s.ds c { s.ds c with avail := 0 },
+               flag := if ((s.ds c).eof || (s.ds c).err) then upd s.flag c true else s.flag,
+               delivered := upd s.delivered c (s.delivered c + (s.ds c).avail) } := by
+  unfold cbRead
+  simp only [hp.drain c, doRead, Desc.drain, hp.noRead, runActs, List.foldl_nil]
+
+theorem cbClose_P {pre : List Act} {sc : Script} (hp : ClassP pre sc) (c : Nat) (s : St) :
+    (cbClose sc c s).ds = s.ds ∧ (cbClose sc c s).delivered = s.delivered ∧ (cbClose sc c s).flag = s.flag ∧
+    (cbClose sc c s).ctxList = s.ctxList ∧ (cbClose sc c s).trace = Ev.close c :: s.trace ∧
+    (cbClose sc c s).toExit = s.toExit ∧ (cbClose sc c s).nIdle = s.nIdle ∧ (cbClose sc c s).nds = s.nds := by
+  rcases cbClose_eq sc c s with he | he <;> rw [he] <;>
+    simp only [hp.noClose, runActs, List.foldl_nil] <;> exact ⟨rfl, rfl, rfl, rfl, rfl, rfl, rfl, rfl⟩
+
+theorem handleWake_P {pre : List Act} {sc : Script} (hp : ClassP pre sc) (s : St) :
+    handleWake sc s =
+      (if s.toExit = 2 then { emit .wake { s with evc := 0, nWake := s.nWake + 1 } with toExit := 1 }
+       else emit .wake { s with evc := 0, nWake := s.nWake + 1 }) := by
+  unfold handleWake
+  simp only [hp.noWake, runActs, List.foldl_nil]
+  rfl
+
+/-- what a dispatch does to the kernel: it only consumes bytes -/
+def DrainRel (s t : St) : Prop := ∀ d, (t.ds d).avail ≤ (s.ds d).avail ∧ SameBut (t.ds d) (s.ds d)
+
+theorem DrainRel.refl (s : St) : DrainRel s s := fun _ => ⟨Nat.le_refl _, rfl, rfl, rfl, rfl, rfl, rfl, rfl⟩
+
+theorem SameBut.trans {a b c : Desc} (h1 : SameBut a b) (h2 : SameBut b c) : SameBut a c := by
+  obtain ⟨a1, a2, a3, a4, a5, a6, a7⟩ := h1
+  obtain ⟨b1, b2, b3, b4, b5, b6, b7⟩ := h2
+  exact ⟨a1.trans b1, a2.trans b2, a3.trans b3, a4.trans b4, a5.trans b5, a6.trans b6, a7.trans b7⟩
+
+theorem DrainRel.trans {s t u : St} (a : DrainRel s t) (b : DrainRel t u) : DrainRel s u :=
+  fun d => ⟨Nat.le_trans (b d).1 (a d).1, (b d).2.trans (a d).2⟩
+
+/-- the read callback of a class-P script on a registered context -/
+theorem cbRead_pc {kinds pre sc} (hp : ClassP pre sc) {s : St} (h : PC none kinds pre sc s) {c : Nat}
+    (hc : c ∈ s.ctxList) (hreg : Ev.addOk c ∈ s.trace) :
+    PC (some c) kinds pre sc (cbRead sc c s) ∧
+    ((cbRead sc c s).flag c = true → ((cbRead sc c s).ds c).eof = true ∧ ((cbRead sc c s).ds c).avail = 0) ∧
+    DrainRel s (cbRead sc c s) ∧ (cbRead sc c s).ctxList = s.ctxList := by
+  rw [cbRead_P hp]
+  have hpl := h.plain c
+  have herr : (s.ds c).err = false := hpl.2.1
+  have hds : ∀ d, d ≠ c → upd s.ds c { s.ds c with avail := 0 } d = s.ds d := fun d hd => by simp [upd, hd]
+  have hdc : upd s.ds c { s.ds c with avail := 0 } c = { s.ds c with avail := 0 } := by simp [upd]
+  have hsb : ∀ d, SameBut (upd s.ds c { s.ds c with avail := 0 } d) (s.ds d) := by
+    intro d
+    by_cases hd : d = c
+    · subst hd; rw [hdc]; exact ⟨rfl, rfl, rfl, rfl, rfl, rfl, rfl⟩
+    · rw [hds d hd]; exact ⟨rfl, rfl, rfl, rfl, rfl, rfl, rfl⟩
+  refine ⟨?_, ?_, ?_, rfl⟩
+  · refine PC.emit_other ?_ (by simp) (by simp) (by simp)
+    refine ⟨?_, ?_, ?_, ?_, ?_, h.exitPhase, ?_, h.adds, ?_, h.ndsOk⟩
+    · intro d; exact (hsb d).trans (h.sync d)
+    · intro d
+      show upd s.delivered c (s.delivered c + (s.ds c).avail) d + (upd s.ds c { s.ds c with avail := 0 } d).avail =
+        (upd s.ds c { s.ds c with avail := 0 } d).arrived
+      by_cases hd : d = c
+      · subst hd; rw [hdc]; simp [upd]; exact h.cons d
+      · rw [hds d hd]; simp [upd, hd]; exact h.cons d
+    · intro d
+      show Plain (upd s.ds c { s.ds c with avail := 0 } d)
+      by_cases hd : d = c
+      · subst hd; rw [hdc]; exact h.plain d
+      · rw [hds d hd]; exact h.plain d
+    · intro c' hc' hne
+      have hne' : c' ≠ c := fun hh => hne (by rw [hh])
+      show (if ((s.ds c).eof || (s.ds c).err) then upd s.flag c true else s.flag) c' = false
+      split
+      · simp [upd, hne']; exact h.flags c' hc' (by simp)
+      · exact h.flags c' hc' (by simp)
+    · intro c' hcl
+      have := h.closedDone c' hcl
+      show (upd s.ds c { s.ds c with avail := 0 } c').eof = true ∧ (upd s.ds c { s.ds c with avail := 0 } c').avail = 0
+      by_cases hd : c' = c
+      · subst hd; rw [hdc]; exact ⟨this.1, rfl⟩
+      · rw [hds c' hd]; exact this
+    · intro hph c' hc'
+      have := h.quiet hph c' hc'
+      show (upd s.ds c { s.ds c with avail := 0 } c').readable = false
+      by_cases hd : c' = c
+      · subst hd; rw [hdc]
+        have hq := plain_quiet (h.plain c') this
+        have : ({ s.ds c' with avail := 0 } : Desc) = s.ds c' := by
+          cases hx : s.ds c'; simp [hx] at hq ⊢; exact hq.1.symm
+        rw [this]; assumption
+      · rw [hds c' hd]; exact this
+    · intro c' hc'
+      show upd s.delivered c (s.delivered c + (s.ds c).avail) c' = 0
+      have hne : c' ≠ c := fun hh => hc' (hh ▸ hreg)
+      simp [upd, hne]; exact h.unreg c' hc'
+  · intro hf
+    have hf' : (if ((s.ds c).eof || (s.ds c).err) then upd s.flag c true else s.flag) c = true := hf
+    show (upd s.ds c { s.ds c with avail := 0 } c).eof = true ∧ (upd s.ds c { s.ds c with avail := 0 } c).avail = 0
+    rw [hdc]
+    refine ⟨?_, rfl⟩
+    split at hf'
+    · rename_i he; simpa [herr] using he
+    · rw [h.flags c hc (by simp)] at hf'; cases hf'
+  · intro d
+    refine ⟨?_, hsb d⟩
+    show (upd s.ds c { s.ds c with avail := 0 } d).avail ≤ _
+    by_cases hd : d = c
+    · subst hd; rw [hdc]; exact Nat.zero_le _
+    · rw [hds d hd]; exact Nat.le_refl _
+
+theorem pc_keep {kinds pre sc} {s : St} {c : Nat} (h : PC (some c) kinds pre sc s) (hf : s.flag c = false) :
+    PC none kinds pre sc s := by
+  refine ⟨h.sync, h.cons, h.plain, ?_, h.closedDone, h.exitPhase, h.quiet, h.adds, h.unreg, h.ndsOk⟩
+  intro c' hc' _
+  by_cases hcc : c' = c
+  · subst hcc; exact hf
+  · exact h.flags c' hc' (by simp [Ne.symm hcc])
+
+theorem pc_flag {kinds pre sc} {s : St} (c : Nat) (h : PC none kinds pre sc s) :
+    PC (some c) kinds pre sc { s with flag := upd s.flag c true } := by
+  refine ⟨h.sync, h.cons, h.plain, ?_, h.closedDone, h.exitPhase, h.quiet, h.adds, h.unreg, h.ndsOk⟩
+  intro c' hc' hne
+  have hne' : c' ≠ c := fun hh => hne (by rw [hh])
+  show upd s.flag c true c' = false
+  simp [upd, hne']; exact h.flags c' hc' (by simp)
+
+theorem PC.weaken {kinds pre sc} {s : St} (c : Nat) (h : PC none kinds pre sc s) : PC (some c) kinds pre sc s :=
+  ⟨h.sync, h.cons, h.plain, fun c' hc' _ => h.flags c' hc' (by simp), h.closedDone, h.exitPhase, h.quiet,
+   h.adds, h.unreg, h.ndsOk⟩
+
+/-- `cb_close c` followed by the unregistration of `c` -/
+theorem pc_close {kinds pre sc} {s t : St} {c : Nat} (h : PC (some c) kinds pre sc s)
+    (hdone : (s.ds c).eof = true ∧ (s.ds c).avail = 0)
+    (h1 : t.ds = s.ds) (h2 : t.delivered = s.delivered) (h3 : t.flag = s.flag)
+    (h4 : ∀ c' ∈ t.ctxList, c' ∈ s.ctxList ∧ c' ≠ c) (h5 : t.trace = Ev.close c :: s.trace)
+    (h6 : t.toExit = s.toExit) (h7 : t.nIdle = s.nIdle) (h8 : t.nds = s.nds) : PC none kinds pre sc t := by
+  have hk : Kof kinds pre sc t = Kof kinds pre sc s := by unfold Kof; rw [h7, h8]
+  refine ⟨by rw [h1, hk]; exact h.sync, by rw [h1, h2]; exact h.cons, by rw [h1]; exact h.plain, ?_, ?_,
+    by rw [h6, h7]; exact h.exitPhase, ?_, ?_, ?_, by rw [h8]; exact h.ndsOk⟩
+  · intro c' hc' _
+    rw [h3]
+    exact h.flags c' (h4 c' hc').1 (by simp [Ne.symm (h4 c' hc').2])
+  · intro c' hcl
+    rw [h5] at hcl; rw [h1]
+    simp at hcl
+    rcases hcl with hcl | hcl
+    · subst hcl; exact hdone
+    · exact h.closedDone c' hcl
+  · intro hph c' hc'
+    rw [h1]
+    exact h.quiet (by rw [← h7]; exact hph) c' (h4 c' hc').1
+  · intro c'
+    rw [h5, h8, ← h.adds c']
+    constructor
+    · rintro (hh | hh)
+      · exact Or.inl (mem_cons_ne hh (by simp))
+      · exact Or.inr (mem_cons_ne hh (by simp))
+    · rintro (hh | hh)
+      · exact Or.inl (List.mem_cons_of_mem _ hh)
+      · exact Or.inr (List.mem_cons_of_mem _ hh)
+  · intro c' hc'
+    rw [h2]
+    exact h.unreg c' (fun hh => hc' (by rw [h5]; exact List.mem_cons_of_mem _ hh))
+
+theorem handleWake_pc {x kinds pre sc} (hp : ClassP pre sc) {s : St} (h : PC x kinds pre sc s) :
+    PC x kinds pre sc (handleWake sc s) := by
+  rw [handleWake_P hp]
+  have h1 : PC x kinds pre sc (emit .wake { s with evc := 0, nWake := s.nWake + 1 }) :=
+    PC.emit_other (h.congr rfl rfl rfl rfl rfl rfl rfl rfl) (by simp) (by simp) (by simp)
+  split
+  · rename_i h2
+    refine ⟨h1.sync, h1.cons, h1.plain, h1.flags, h1.closedDone, ?_, h1.quiet, h1.adds, h1.unreg, h1.ndsOk⟩
+    rcases h.exitPhase with h' | h'
+    · rw [h'] at h2; cases h2
+    · exact Or.inr h'
+  · exact h1
+
+/-! ### peers acting while the loop sleeps -/
+
+theorem arm_same (c : Nat) (s : St) :
+    (arm c s).ds = s.ds ∧ (arm c s).delivered = s.delivered ∧ (arm c s).flag = s.flag ∧
+    (arm c s).ctxList = s.ctxList ∧ (arm c s).trace = s.trace ∧ (arm c s).toExit = s.toExit ∧
+    (arm c s).nIdle = s.nIdle ∧ (arm c s).nds = s.nds := by
+  unfold arm; split <;> exact ⟨rfl, rfl, rfl, rfl, rfl, rfl, rfl, rfl⟩
+
+theorem armSig_same (s : St) :
+    (armSig s).ds = s.ds ∧ (armSig s).delivered = s.delivered ∧ (armSig s).flag = s.flag ∧
+    (armSig s).ctxList = s.ctxList ∧ (armSig s).trace = s.trace ∧ (armSig s).toExit = s.toExit ∧
+    (armSig s).nIdle = s.nIdle ∧ (armSig s).nds = s.nds := by
+  unfold armSig; split <;> exact ⟨rfl, rfl, rfl, rfl, rfl, rfl, rfl, rfl⟩
+
+theorem setDesc_same (c : Nat) (r : Desc × Bool) (s : St) :
+    (setDesc c r s).ds = upd s.ds c r.1 ∧ (setDesc c r s).delivered = s.delivered ∧
+    (setDesc c r s).flag = s.flag ∧ (setDesc c r s).ctxList = s.ctxList ∧
+    (setDesc c r s).trace = s.trace ∧ (setDesc c r s).toExit = s.toExit ∧
+    (setDesc c r s).nIdle = s.nIdle ∧ (setDesc c r s).nds = s.nds := by
+  unfold setDesc
+  simp only []
+  split
+  · obtain ⟨a1, a2, a3, a4, a5, a6, a7, a8⟩ := arm_same c { s with ds := upd s.ds c r.1 }
+    exact ⟨a1, a2, a3, a4, a5, a6, a7, a8⟩
+  · exact ⟨rfl, rfl, rfl, rfl, rfl, rfl, rfl, rfl⟩
+
+/-- everything a peer action leaves alone, and the lock-step with the kernel-only world -/
+structure PeerStep (K K' : KSt) (s t : St) : Prop where
+  sync : (∀ d, SameBut (s.ds d) (K.ds d)) → ∀ d, SameBut (t.ds d) (K'.ds d)
+  cons : (∀ d, s.delivered d + (s.ds d).avail = (s.ds d).arrived) →
+    ∀ d, t.delivered d + (t.ds d).avail = (t.ds d).arrived
+  plain : (∀ d, Plain (s.ds d)) → ∀ d, Plain (t.ds d)
+  untouched : (∀ d, Plain (s.ds d)) →
+    ∀ d, (s.ds d).eof = true → (t.ds d).eof = true ∧ ((s.ds d).avail = 0 → (t.ds d).avail = 0)
+  delivered : t.delivered = s.delivered
+  flag : t.flag = s.flag
+  ctxList : t.ctxList = s.ctxList
+  trace : t.trace = s.trace
+  toExit : t.toExit = s.toExit
+  nIdle : t.nIdle = s.nIdle
+  nds : t.nds = s.nds
+
+theorem PeerStep.refl (K : KSt) (s : St) : PeerStep K K s s :=
+  ⟨fun h => h, fun h => h, fun h => h, fun _ _ he => ⟨he, fun h => h⟩, rfl, rfl, rfl, rfl, rfl, rfl, rfl⟩
+
+theorem PeerStep.trans {K K' K'' : KSt} {s t u : St} (a : PeerStep K K' s t) (b : PeerStep K' K'' t u) :
+    PeerStep K K'' s u :=
+  ⟨fun h => b.sync (a.sync h), fun h => b.cons (a.cons h), fun h => b.plain (a.plain h),
+   fun hp d he => by
+     obtain ⟨e1, e2⟩ := a.untouched hp d he
+     obtain ⟨f1, f2⟩ := b.untouched (a.plain hp) d e1
+     exact ⟨f1, fun h0 => f2 (e2 h0)⟩,
+   by rw [b.delivered, a.delivered], by rw [b.flag, a.flag], by rw [b.ctxList, a.ctxList],
+   by rw [b.trace, a.trace], by rw [b.toExit, a.toExit], by rw [b.nIdle, a.nIdle], by rw [b.nds, a.nds]⟩
+
+/-- one kernel operation on descriptor `d`, performed in both worlds -/
+theorem peer_setDesc {K : KSt} {s : St} (d : Nat) (f : Desc → Desc × Bool)
+    (hsb : ∀ x k : Desc, SameBut x k → SameBut (f x).1 (f k).1)
+    (hcons : ∀ x : Desc, (f x).1.avail + x.arrived = x.avail + (f x).1.arrived)
+    (hpl : ∀ x : Desc, Plain x → Plain (f x).1)
+    (hend : ∀ x : Desc, Plain x → x.eof = true → (f x).1.eof = true ∧ (f x).1.avail = x.avail) :
+    PeerStep K ⟨upd K.ds d (f (K.ds d)).1⟩ s (setDesc d (f (s.ds d)) s) := by
+  obtain ⟨a1, a2, a3, a4, a5, a6, a7, a8⟩ := setDesc_same d (f (s.ds d)) s
+  have hds : ∀ (g : Nat → Desc) v x, x ≠ d → upd g d v x = g x := fun g v x hx => by simp [upd, hx]
+  have hdd : ∀ (g : Nat → Desc) v, upd g d v d = v := fun g v => by simp [upd]
+  refine ⟨?_, ?_, ?_, ?_, a2, a3, a4, a5, a6, a7, a8⟩
+  · intro h x
+    rw [a1]
+    show SameBut _ (upd K.ds d (f (K.ds d)).1 x)
+    by_cases hx : x = d
+    · subst hx; rw [hdd, hdd]; exact hsb _ _ (h x)
+    · rw [hds _ _ x hx, hds _ _ x hx]; exact h x
+  · intro h x
+    rw [a1, a2]
+    by_cases hx : x = d
+    · subst hx; rw [hdd]
+      have := hcons (s.ds x); have := h x; omega
+    · rw [hds _ _ x hx]; exact h x
+  · intro h x
+    rw [a1]
+    by_cases hx : x = d
+    · subst hx; rw [hdd]; exact hpl _ (h x)
+    · rw [hds _ _ x hx]; exact h x
+  · intro hp x he
+    rw [a1]
+    by_cases hx : x = d
+    · subst hx; rw [hdd]
+      obtain ⟨e1, e2⟩ := hend _ (hp x) he
+      exact ⟨e1, fun h0 => by rw [e2]; exact h0⟩
+    · rw [hds _ _ x hx]; exact ⟨he, fun h => h⟩
+
+theorem peer_act {K : KSt} {s : St} (a : Act) (ha : peerOnly a = true) :
+    PeerStep K (kact s.nds K a) s (act a s) := by
+  cases a with
+  | write d n =>
+    simp only [act, kact]
+    split
+    · exact peer_setDesc d (fun x => x.write n) (fun x k h => (write_sameBut n h).1)
+        (fun x => (write_sameBut n (d := x) (k := x) ⟨rfl, rfl, rfl, rfl, rfl, rfl, rfl⟩).2.2)
+        (fun x h => write_plain n h)
+        (fun x h he => by rw [write_ended n h he]; exact ⟨he, rfl⟩)
+    · exact PeerStep.refl K s
+  | hclose d =>
+    simp only [act, kact]
+    split
+    · exact peer_setDesc d (fun x => x.hclose) (fun x k h => (hclose_sameBut h).1)
+        (fun x => by
+          have := hclose_sameBut (d := x) (k := x) ⟨rfl, rfl, rfl, rfl, rfl, rfl, rfl⟩
+          show x.hclose.1.avail + x.arrived = x.avail + x.hclose.1.arrived
+          rw [this.2.2.1, this.2.2.2])
+        (fun x h => hclose_plain h)
+        (fun x h he => by rw [hclose_ended h he]; exact ⟨he, rfl⟩)
+    · exact PeerStep.refl K s
+  | pclose d =>
+    simp only [act, kact]
+    split
+    · exact peer_setDesc d (fun x => x.pclose) (fun x k h => (pclose_sameBut h).1)
+        (fun x => by
+          have := pclose_sameBut (d := x) (k := x) ⟨rfl, rfl, rfl, rfl, rfl, rfl, rfl⟩
+          show x.pclose.1.avail + x.arrived = x.avail + x.pclose.1.arrived
+          rw [this.2.2.1, this.2.2.2])
+        (fun x h => pclose_plain h)
+        (fun x _ he => pclose_ended he)
+    · exact PeerStep.refl K s
+  | add d => simp [peerOnly] at ha
+  | shut d => simp [peerOnly] at ha
+  | wakeup => simp [peerOnly] at ha
+  | exit => simp [peerOnly] at ha
+  | xexit => simp [peerOnly] at ha
+
+theorem peer_acts (as : List Act) : ∀ {K : KSt} {s : St}, (∀ a ∈ as, peerOnly a = true) →
+    PeerStep K (kacts s.nds as K) s (runActs as s) := by
+  induction as with
+  | nil => intro K s _; exact PeerStep.refl K s
+  | cons a as ih =>
+    intro K s h
+    have h1 := peer_act (K := K) (s := s) a (h a (by simp))
+    have h2 := ih (K := kact s.nds K a) (s := act a s) (fun b hb => h b (List.mem_cons_of_mem _ hb))
+    rw [h1.nds] at h2
+    exact h1.trans h2
+
+theorem xexit_same (s : St) :
+    (act .xexit s).ds = s.ds ∧ (act .xexit s).delivered = s.delivered ∧ (act .xexit s).flag = s.flag ∧
+    (act .xexit s).ctxList = s.ctxList ∧ (act .xexit s).trace = s.trace ∧ (act .xexit s).toExit = 2 ∧
+    (act .xexit s).nIdle = s.nIdle ∧ (act .xexit s).nds = s.nds := by
+  simp only [act, sigWakeup]
+  obtain ⟨a1, a2, a3, a4, a5, a6, a7, a8⟩ := armSig_same { s with toExit := 2, evc := s.evc + 1 }
+  exact ⟨a1, a2, a3, a4, a5, a6, a7, a8⟩
+
+theorem doneActs_succ (sc : Script) {k : Nat} (hk : k < sc.nIdle) :
+    doneActs sc (k + 1) = doneActs sc k ++ sc.onIdle k := by
+  unfold doneActs
+  have h1 : min (k + 1) sc.nIdle = k + 1 := by omega
+  have h2 : min k sc.nIdle = k := by omega
+  rw [h1, h2, List.range_succ, List.flatMap_append]
+  simp
+
+theorem doneActs_done (sc : Script) {k : Nat} (hk : sc.nIdle ≤ k) : doneActs sc k = idleActs sc := by
+  unfold doneActs idleActs
+  have : min k sc.nIdle = sc.nIdle := by omega
+  rw [this]
+
+theorem kacts_append (nds : Nat) (a b : List Act) (K : KSt) :
+    kacts nds (a ++ b) K = kacts nds b (kacts nds a K) := by
+  unfold kacts; rw [List.foldl_append]
+
+/-- the loop going to sleep: either the next scripted batch of peer actions, or (script
+exhausted) the exit request — in which case the caller shows that nothing is readable -/
+theorem idle_pc {kinds pre sc} (hp : ClassP pre sc) {s : St} (h : PC none kinds pre sc s)
+    (hq : sc.nIdle ≤ s.nIdle → ∀ c ∈ s.ctxList, (s.ds c).readable = false) :
+    PC none kinds pre sc (idle sc s) := by
+  unfold idle
+  simp only []
+  have h1 : PC none kinds pre sc (emit (.sleep (s.ctxList.any fun c => (s.ds c).readable)) s) :=
+    PC.emit_other h (by simp) (by simp) (by simp)
+  split
+  · rename_i hk
+    have ps := peer_acts (sc.onIdle s.nIdle) (K := Kof kinds pre sc s)
+      (s := emit (.sleep (s.ctxList.any fun c => (s.ds c).readable)) { s with nIdle := s.nIdle + 1 })
+      (hp.idlePeer s.nIdle)
+    generalize runActs (sc.onIdle s.nIdle)
+      (emit (.sleep (s.ctxList.any fun c => (s.ds c).readable)) { s with nIdle := s.nIdle + 1 }) = t at ps
+    have hkof : Kof kinds pre sc t = kacts s.nds (sc.onIdle s.nIdle) (Kof kinds pre sc s) := by
+      unfold Kof
+      rw [ps.nIdle, ps.nds]
+      show kacts s.nds (pre ++ doneActs sc (s.nIdle + 1)) _ = _
+      rw [doneActs_succ sc hk, ← List.append_assoc, kacts_append]
+    have htox : s.toExit = 0 := by
+      rcases h.exitPhase with h' | h'
+      · exact h'
+      · omega
+    refine ⟨?_, ps.cons h1.cons, ps.plain h1.plain, ?_, ?_, ?_, ?_, ?_, ?_, by rw [ps.nds]; exact h.ndsOk⟩
+    · rw [hkof]; exact ps.sync h.sync
+    · rw [ps.flag, ps.ctxList]; exact h1.flags
+    · intro c hc
+      rw [ps.trace] at hc
+      obtain ⟨e1, e2⟩ := h1.closedDone c hc
+      obtain ⟨f1, f2⟩ := ps.untouched h1.plain c e1
+      exact ⟨f1, f2 e2⟩
+    · left; rw [ps.toExit]; exact htox
+    · intro hph
+      rw [ps.nIdle] at hph
+      have : sc.nIdle < s.nIdle + 1 := hph
+      omega
+    · intro c; rw [ps.trace, ps.nds]; exact h1.adds c
+    · intro c hc; rw [ps.delivered]; rw [ps.trace] at hc; exact h1.unreg c hc
+  · rename_i hk
+    have hk' : sc.nIdle ≤ s.nIdle := by omega
+    obtain ⟨a1, a2, a3, a4, a5, a6, a7, a8⟩ := xexit_same
+      (emit (.sleep (s.ctxList.any fun c => (s.ds c).readable)) { s with nIdle := s.nIdle + 1 })
+    generalize act .xexit
+      (emit (.sleep (s.ctxList.any fun c => (s.ds c).readable)) { s with nIdle := s.nIdle + 1 }) = t
+      at a1 a2 a3 a4 a5 a6 a7 a8
+    have hkof : Kof kinds pre sc t = Kof kinds pre sc s := by
+      unfold Kof
+      rw [a7, a8]
+      show kacts s.nds (pre ++ doneActs sc (s.nIdle + 1)) _ = _
+      rw [doneActs_done sc hk', doneActs_done sc (by omega)]
+    refine ⟨by rw [a1, hkof]; exact h.sync, by rw [a1, a2]; exact h.cons, by rw [a1]; exact h.plain,
+      by rw [a3, a4]; exact h.flags, ?_, ?_, ?_, ?_, ?_, by rw [a8]; exact h.ndsOk⟩
+    · rw [a1, a5]; exact h1.closedDone
+    · right; rw [a7]; show sc.nIdle < s.nIdle + 1; omega
+    · intro _; rw [a1, a4]; exact hq hk'
+    · intro c; rw [a5, a8]; exact h1.adds c
+    · intro c hc; rw [a2]; rw [a5] at hc; exact h1.unreg c hc
+
+/-! ### before the run: `pre` is executed in lock-step by the kernel-only world -/
+
+structure PreQ (kinds : List Kind) (done : List Act) (K : KSt) (s : St) : Prop where
+  ds : ∀ d, s.ds d = K.ds d
+  delivered : ∀ d, s.delivered d = 0
+  flag : ∀ d, s.flag d = false
+  noClose : ∀ c, Ev.close c ∉ s.trace
+  toExit : s.toExit = 0
+  nIdle : s.nIdle = 0
+  ndsOk : s.nds = kinds.length
+  plain : ∀ d, Plain (s.ds d)
+  full : ∀ d, (s.ds d).avail = (s.ds d).arrived
+  adds : ∀ c, (Ev.addOk c ∈ s.trace ∨ Ev.addRej c ∈ s.trace) ↔ (Act.add c ∈ done ∧ c < s.nds)
+  triedEv : ∀ c, s.tried c = true → Ev.addOk c ∈ s.trace ∨ Ev.addRej c ∈ s.trace
+
+theorem preQ_setDesc {kinds done K} {s : St} (h : PreQ kinds done K s) (d : Nat) (f : Desc → Desc × Bool)
+    (a : Act) (ha : ∀ c, a ≠ .add c)
+    (hpl : ∀ x : Desc, Plain x → Plain (f x).1)
+    (hfull : ∀ x : Desc, x.avail = x.arrived → (f x).1.avail = (f x).1.arrived) :
+    PreQ kinds (done ++ [a]) ⟨upd K.ds d (f (K.ds d)).1⟩ (setDesc d (f (s.ds d)) s) := by
+  obtain ⟨a1, a2, a3, _, a5, a6, a7, a8⟩ := setDesc_same d (f (s.ds d)) s
+  have htr : (setDesc d (f (s.ds d)) s).tried = s.tried := by
+    unfold setDesc; simp only []; split
+    · unfold arm; split <;> rfl
+    · rfl
+  refine ⟨?_, by rw [a2]; exact h.delivered, by rw [a3]; exact h.flag, by rw [a5]; exact h.noClose,
+    by rw [a6]; exact h.toExit, by rw [a7]; exact h.nIdle, by rw [a8]; exact h.ndsOk, ?_, ?_, ?_, ?_⟩
+  · intro x
+    rw [a1]
+    show upd s.ds d (f (s.ds d)).1 x = upd K.ds d (f (K.ds d)).1 x
+    by_cases hx : x = d
+    · subst hx; simp [upd, h.ds x]
+    · simp [upd, hx, h.ds x]
+  · intro x
+    rw [a1]
+    by_cases hx : x = d
+    · subst hx; simp only [upd, ↓reduceIte]; exact hpl _ (h.plain x)
+    · simp only [upd, hx, ↓reduceIte]; exact h.plain x
+  · intro x
+    rw [a1]
+    by_cases hx : x = d
+    · subst hx; simp only [upd, ↓reduceIte]; exact hfull _ (h.full x)
+    · simp only [upd, hx, ↓reduceIte]; exact h.full x
+  · intro c
+    rw [a5, a8, h.adds c]
+    constructor
+    · rintro ⟨h1, h2⟩; exact ⟨by simp [h1], h2⟩
+    · rintro ⟨h1, h2⟩
+      simp at h1
+      rcases h1 with h1 | h1
+      · exact ⟨h1, h2⟩
+      · exact absurd h1.symm (ha c)
+  · intro c hc
+    rw [htr] at hc; rw [a5]; exact h.triedEv c hc
+
+theorem PreQ.skip {kinds done K} {s : St} (h : PreQ kinds done K s) (a : Act) (ha : ∀ c, a ≠ .add c) :
+    PreQ kinds (done ++ [a]) K s := by
+  refine ⟨h.ds, h.delivered, h.flag, h.noClose, h.toExit, h.nIdle, h.ndsOk, h.plain, h.full, ?_, h.triedEv⟩
+  intro c
+  rw [h.adds c]
+  constructor
+  · rintro ⟨h1, h2⟩; exact ⟨by simp [h1], h2⟩
+  · rintro ⟨h1, h2⟩
+    simp at h1
+    rcases h1 with h1 | h1
+    · exact ⟨h1, h2⟩
+    · exact absurd h1.symm (ha c)
+
+/-- a first add of a valid descriptor: an answer is recorded, nothing else the class-P invariant
+looks at changes -/
+theorem addCtx_fresh {s : St} {d : Nat} (ht : s.tried d = false) (hd : d < s.nds) :
+    ∃ e, (e = Ev.addOk d ∨ e = Ev.addRej d) ∧ (addCtx d s).trace = e :: s.trace ∧
+      (addCtx d s).tried = upd s.tried d true ∧ (addCtx d s).ds = s.ds ∧
+      (addCtx d s).delivered = s.delivered ∧ (addCtx d s).flag = s.flag ∧
+      (addCtx d s).toExit = s.toExit ∧ (addCtx d s).nIdle = s.nIdle ∧ (addCtx d s).nds = s.nds := by
+  unfold addCtx
+  simp only [ht, hd, decide_true, Bool.not_true, Bool.or_self, Bool.false_eq_true, ↓reduceIte]
+  cases hb : s.backend with
+  | select => exact ⟨_, Or.inl rfl, rfl, rfl, rfl, rfl, rfl, rfl, rfl, rfl⟩
+  | poll =>
+    simp only []
+    split
+    · exact ⟨_, Or.inr rfl, rfl, rfl, rfl, rfl, rfl, rfl, rfl, rfl⟩
+    · exact ⟨_, Or.inl rfl, rfl, rfl, rfl, rfl, rfl, rfl, rfl, rfl⟩
+  | epoll =>
+    simp only []
+    split
+    · refine ⟨_, Or.inl rfl, ?_⟩
+      simp only [emit, arm]
+      split <;> exact ⟨rfl, rfl, rfl, rfl, rfl, rfl, rfl, rfl⟩
+    · exact ⟨_, Or.inl rfl, rfl, rfl, rfl, rfl, rfl, rfl, rfl, rfl⟩
+
+theorem preQ_act {kinds done K} {s : St} (h : PreQ kinds done K s) (hi : Inv none s) (a : Act)
+    (ha : preOk a = true) : PreQ kinds (done ++ [a]) (kact s.nds K a) (act a s) := by
+  cases a with
+  | write d n =>
+    simp only [act, kact]
+    split
+    · refine preQ_setDesc h d (fun x => x.write n) (Act.write d n) (by simp) (fun x hx => write_plain n hx) ?_
+      intro x hx
+      have := (write_sameBut n (d := x) (k := x) ⟨rfl, rfl, rfl, rfl, rfl, rfl, rfl⟩).2.2
+      omega
+    · exact h.skip (Act.write d n) (by simp)
+  | hclose d =>
+    simp only [act, kact]
+    split
+    · refine preQ_setDesc h d (fun x => x.hclose) (Act.hclose d) (by simp) (fun x hx => hclose_plain hx) ?_
+      intro x hx
+      have := hclose_sameBut (d := x) (k := x) ⟨rfl, rfl, rfl, rfl, rfl, rfl, rfl⟩
+      show x.hclose.1.avail = x.hclose.1.arrived
+      rw [this.2.2.1, this.2.2.2]; exact hx
+    · exact h.skip (Act.hclose d) (by simp)
+  | pclose d =>
+    simp only [act, kact]
+    split
+    · refine preQ_setDesc h d (fun x => x.pclose) (Act.pclose d) (by simp) (fun x hx => pclose_plain hx) ?_
+      intro x hx
+      have := pclose_sameBut (d := x) (k := x) ⟨rfl, rfl, rfl, rfl, rfl, rfl, rfl⟩
+      show x.pclose.1.avail = x.pclose.1.arrived
+      rw [this.2.2.1, this.2.2.2]; exact hx
+    · exact h.skip (Act.pclose d) (by simp)
+  | add d =>
+    simp only [kact]
+    show PreQ kinds (done ++ [Act.add d]) K (addCtx d s)
+    by_cases hfresh : s.tried d = false ∧ d < s.nds
+    · obtain ⟨e, he, t1, t2, t3, t4, t5, t6, t7, t8⟩ := addCtx_fresh hfresh.1 hfresh.2
+      have hne : ∀ c, e ≠ Ev.close c := by rcases he with rfl | rfl <;> simp
+      refine ⟨by rw [t3]; exact h.ds, by rw [t4]; exact h.delivered, by rw [t5]; exact h.flag, ?_,
+        by rw [t6]; exact h.toExit, by rw [t7]; exact h.nIdle, by rw [t8]; exact h.ndsOk,
+        by rw [t3]; exact h.plain, by rw [t3]; exact h.full, ?_, ?_⟩
+      · intro c hc
+        rw [t1] at hc
+        exact h.noClose c (mem_cons_ne hc (hne c).symm)
+      · intro c
+        rw [t1, t8]
+        by_cases hcd : c = d
+        · subst hcd
+          constructor
+          · intro _; exact ⟨by simp, hfresh.2⟩
+          · intro _
+            rcases he with rfl | rfl
+            · exact Or.inl (by simp)
+            · exact Or.inr (by simp)
+        · have e1 : Ev.addOk c ≠ e := by rcases he with rfl | rfl <;> simp [hcd]
+          have e2 : Ev.addRej c ≠ e := by rcases he with rfl | rfl <;> simp [hcd]
+          constructor
+          · rintro (hh | hh)
+            · obtain ⟨q1, q2⟩ := (h.adds c).mp (Or.inl (mem_cons_ne hh e1))
+              exact ⟨by simp [q1], q2⟩
+            · obtain ⟨q1, q2⟩ := (h.adds c).mp (Or.inr (mem_cons_ne hh e2))
+              exact ⟨by simp [q1], q2⟩
+          · rintro ⟨q1, q2⟩
+            simp [hcd] at q1
+            rcases (h.adds c).mpr ⟨q1, q2⟩ with hh | hh
+            · exact Or.inl (List.mem_cons_of_mem _ hh)
+            · exact Or.inr (List.mem_cons_of_mem _ hh)
+      · intro c hc
+        rw [t2] at hc; rw [t1]
+        by_cases hcd : c = d
+        · subst hcd
+          rcases he with rfl | rfl
+          · exact Or.inl (by simp)
+          · exact Or.inr (by simp)
+        · simp [upd, hcd] at hc
+          rcases h.triedEv c hc with hh | hh
+          · exact Or.inl (List.mem_cons_of_mem _ hh)
+          · exact Or.inr (List.mem_cons_of_mem _ hh)
+    · have hsame : addCtx d s = s := by
+        unfold addCtx
+        have : (s.tried d || !decide (d < s.nds)) = true := by
+          cases ht : s.tried d <;> simp_all
+        simp [this]
+      rw [hsame]
+      refine ⟨h.ds, h.delivered, h.flag, h.noClose, h.toExit, h.nIdle, h.ndsOk, h.plain, h.full, ?_, h.triedEv⟩
+      intro c
+      rw [h.adds c]
+      constructor
+      · rintro ⟨q1, q2⟩; exact ⟨by simp [q1], q2⟩
+      · rintro ⟨q1, q2⟩
+        simp at q1
+        rcases q1 with q1 | q1
+        · exact ⟨q1, q2⟩
+        · subst q1
+          -- the add is a repetition (or names no descriptor): it was answered before
+          have htd : s.tried c = true := by
+            cases ht : s.tried c
+            · exact absurd ⟨ht, q2⟩ hfresh
+            · rfl
+          exact ⟨((h.adds c).mp (h.triedEv c htd)).1, q2⟩
+  | shut d => simp [preOk] at ha
+  | wakeup => simp [preOk] at ha
+  | exit => simp [preOk] at ha
+  | xexit => simp [preOk] at ha
+
+theorem preQ_acts {kinds} (as : List Act) : ∀ {done K} {s : St}, PreQ kinds done K s → Inv none s →
+    (∀ a ∈ as, preOk a = true) → PreQ kinds (done ++ as) (kacts s.nds as K) (runActs as s) := by
+  induction as with
+  | nil => intro done K s h _ _; simpa [kacts, runActs] using h
+  | cons a as ih =>
+    intro done K s h hi hall
+    have h1 := preQ_act h hi a (hall a (by simp))
+    have h2 := ih h1 (act_inv a hi) (fun b hb => hall b (List.mem_cons_of_mem _ hb))
+    have hn : (act a s).nds = s.nds := (act_mle a s).nds
+    rw [hn] at h2
+    simpa [kacts, runActs, List.append_assoc] using h2
+
+theorem doneActs_zero (sc : Script) : doneActs sc 0 = [] := by
+  unfold doneActs; simp
+
+/-- the class-P invariant holds when `muggle_evloop_run` is entered -/
+theorem pre_pc {kinds pre sc} (hp : ClassP pre sc) (b : Backend) (hints : Nat) (legacy lsel cfd : Bool) :
+    PC none kinds pre sc (runActs pre (initSt b hints legacy kinds lsel cfd)) := by
+  have q0 : PreQ kinds [] (K0 kinds) (initSt b hints legacy kinds lsel cfd) := by
+    refine ⟨fun _ => rfl, fun _ => rfl, fun _ => rfl, by simp [initSt], rfl, rfl, rfl, ?_, fun _ => rfl,
+      by simp [initSt], by simp [initSt]⟩
+    intro d; simp [Plain, initSt]
+  have i0 : Inv none (initSt b hints legacy kinds lsel cfd) := by
+    constructor <;> simp [initSt, LoopWF]
+  have q := preQ_acts pre q0 i0 hp.preOk
+  simp only [List.nil_append] at q
+  generalize runActs pre (initSt b hints legacy kinds lsel cfd) = s at q
+  have hn : (initSt b hints legacy kinds lsel cfd).nds = s.nds := by
+    rw [q.ndsOk]; rfl
+  have hk : Kof kinds pre sc s = kacts (initSt b hints legacy kinds lsel cfd).nds pre (K0 kinds) := by
+    unfold Kof
+    rw [q.nIdle, doneActs_zero, List.append_nil, hn]
+  refine ⟨?_, ?_, q.plain, fun c _ _ => q.flag c, fun c hc => absurd hc (q.noClose c), Or.inl q.toExit, ?_,
+    q.adds, fun c _ => q.delivered c, q.ndsOk⟩
+  · intro d
+    rw [hk, q.ds d]
+    exact ⟨rfl, rfl, rfl, rfl, rfl, rfl, rfl⟩
+  · intro d
+    rw [q.delivered d, q.full d]; simp
+  · intro hph
+    rw [q.nIdle] at hph
+    exact absurd hph (Nat.not_lt_zero _)
+
+/-- **Outcome characterisation.** A state at the end of the back-end loop that satisfies the
+class-P invariant and was left through the exit request gives every context the outcome of the
+kernel-only specification. -/
+theorem outcome_of_pc {kinds pre sc} {s : St} (h : PC none kinds pre sc s) (hi : Inv none s)
+    (hexit : s.toExit = 1) (hrej : ∀ c, Ev.addRej c ∉ s.trace) (c : Nat) :
+    (s.delivered c,
+      if Ev.close c ∈ s.trace then Fate.closed else if c ∈ s.ctxList then Fate.cleared else Fate.none) =
+    specOutcome kinds pre sc c := by
+  have hph : sc.nIdle < s.nIdle := by
+    rcases h.exitPhase with h' | h'
+    · rw [hexit] at h'; cases h'
+    · exact h'
+  have hk : Kof kinds pre sc s = kacts kinds.length (pre ++ idleActs sc) (K0 kinds) := by
+    unfold Kof
+    rw [doneActs_done sc (Nat.le_of_lt hph), h.ndsOk]
+  have hsync := h.sync c
+  rw [hk] at hsync
+  unfold specOutcome
+  simp only []
+  show _ = (if (pre.contains (Act.add c) && decide (c < kinds.length)) = true then
+    (((kacts kinds.length (pre ++ idleActs sc) (K0 kinds)).ds c).arrived,
+      if ((kacts kinds.length (pre ++ idleActs sc) (K0 kinds)).ds c).eof = true then Fate.closed
+      else Fate.cleared) else (0, Fate.none))
+  obtain ⟨_, harr, _, heof, _, _, _⟩ := hsync
+  rw [← harr, ← heof]
+  by_cases hadd : Act.add c ∈ pre ∧ c < kinds.length
+  · have hcond : (pre.contains (Act.add c) && decide (c < kinds.length)) = true := by
+      simp [hadd.1, hadd.2]
+    rw [if_pos hcond]
+    have hok : Ev.addOk c ∈ s.trace := by
+      rcases (h.adds c).mpr ⟨hadd.1, by rw [h.ndsOk]; exact hadd.2⟩ with h' | h'
+      · exact h'
+      · exact absurd h' (hrej c)
+    by_cases hcl : Ev.close c ∈ s.trace
+    · obtain ⟨e1, e2⟩ := h.closedDone c hcl
+      have := h.cons c
+      rw [if_pos hcl, e1]
+      simp only [↓reduceIte]
+      congr 1
+      omega
+    · have hmem : c ∈ s.ctxList := hi.complete c hok hcl
+      obtain ⟨e1, e2⟩ := plain_quiet (h.plain c) (h.quiet hph c hmem)
+      have := h.cons c
+      rw [if_neg hcl, if_pos hmem, e2]
+      simp only [Bool.false_eq_true, ↓reduceIte]
+      congr 1
+      omega
+  · have hcond : ¬ (pre.contains (Act.add c) && decide (c < kinds.length)) = true := by
+      intro hh
+      simp at hh
+      exact hadd hh
+    rw [if_neg hcond]
+    have hnok : Ev.addOk c ∉ s.trace := by
+      intro hok
+      have := (h.adds c).mp (Or.inl hok)
+      exact hadd ⟨this.1, by rw [← h.ndsOk]; exact this.2⟩
+    have hncl : Ev.close c ∉ s.trace := fun hcl => hnok (close_mem_addOk hi.wf hcl)
+    have hnmem : c ∉ s.ctxList := fun hm => hnok (hi.sound c hm).1
+    rw [h.unreg c hnok, if_neg hncl, if_neg hnmem]
+
+/-! ### select -/
+
+theorem selRead_pc {kinds pre sc} (hp : ClassP pre sc) {s : St} (h : PC none kinds pre sc s)
+    (hi : Inv none s) {c : Nat} (hc : c ∈ s.ctxList) :
+    PC (some c) kinds pre sc (selRead sc c s) ∧
+    ((selRead sc c s).flag c = true → ((selRead sc c s).ds c).eof = true ∧ ((selRead sc c s).ds c).avail = 0) := by
+  unfold selRead
+  split
+  · obtain ⟨p1, p2, _, _⟩ := cbRead_pc hp h hc (hi.sound c hc).1
+    exact ⟨p1, p2⟩
+  · refine ⟨h.weaken c, fun hf => ?_⟩
+    rw [h.flags c hc (by simp)] at hf; cases hf
+
+theorem selClose_pc {kinds pre sc} (hp : ClassP pre sc) {s : St} (h : PC (some c) kinds pre sc s)
+    (hi : Inv none s) {i : Nat} (hic : s.ctxList[i]? = some c)
+    (hdone : (s.ds c).eof = true ∧ (s.ds c).avail = 0) : PC none kinds pre sc (selClose sc i c s) := by
+  unfold selClose
+  obtain ⟨a1, a2, a3, a4, a5, a6, a7, a8⟩ := cbClose_P hp c s
+  generalize cbClose sc c s = s3 at a1 a2 a3 a4 a5 a6 a7 a8
+  simp only []
+  refine pc_close h hdone a1 a2 a3 ?_ a5 a6 a7 a8
+  intro c' hc'
+  have hc'' : c' ∈ s3.ctxList.eraseIdx i := hc'
+  rw [a4, eraseIdx_eq_erase_of_nodup hi.nodupL hic] at hc''
+  exact ⟨List.mem_of_mem_erase hc'', fun hh => by subst hh; exact hi.nodupL.not_mem_erase hc''⟩
+
+theorem selScan_pc {kinds pre sc} (hp : ClassP pre sc) (f : Nat) : ∀ (i : Nat) {s : St},
+    PC none kinds pre sc s → Inv none s → s.backend = .select → PC none kinds pre sc (selScan sc f i s) := by
+  induction f with
+  | zero => intro i s h _ _; unfold selScan; exact h.congr rfl rfl rfl rfl rfl rfl rfl rfl
+  | succ f ih =>
+    intro i s h hi hb
+    unfold selScan
+    split
+    · exact h
+    · rename_i c hic
+      have hc : c ∈ s.ctxList := List.mem_of_getElem? hic
+      obtain ⟨p1, p2⟩ := selRead_pc hp h hi hc
+      have i1 := selRead_inv sc hi hc
+      have x1 := selRead_ext sc c s
+      have hic1 := x1.ctx_get hic
+      have hb1 : (selRead sc c s).backend = .select := by rw [x1.backend, hb]
+      generalize selRead sc c s = s1 at p1 p2 i1 hic1 hb1
+      simp only []
+      split
+      · rename_i hf
+        exact ih i (selClose_pc hp p1 i1 hic1 (p2 hf)) (selClose_inv sc i1 hb1 hic1)
+          (by rw [selClose_backend, hb1])
+      · rename_i hf
+        have hf' : s1.flag c = false := by cases hx : s1.flag c <;> simp_all
+        exact ih (i + 1) ((pc_keep p1 hf').congr rfl rfl rfl rfl rfl rfl rfl rfl) (selSetFd_inv c i1) hb1
+
+theorem selDispatch_pc {kinds pre sc} (hp : ClassP pre sc) {s : St} (h : PC none kinds pre sc s)
+    (hi : Inv none s) (hb : s.backend = .select) : PC none kinds pre sc (selDispatch sc s) := by
+  unfold selDispatch
+  simp only []
+  have h0 : PC none kinds pre sc { s with nfds := 0, allset := [], allsig := false } :=
+    h.congr rfl rfl rfl rfl rfl rfl rfl rfl
+  have i0 : Inv none { s with nfds := 0, allset := [], allsig := false } :=
+    hi.congr rfl rfl rfl rfl rfl rfl rfl
+  have h1 : ∃ s1, s1 = (if s.rsig then handleWake sc { s with nfds := 0, allset := [], allsig := false }
+      else { s with nfds := 0, allset := [], allsig := false }) ∧ PC none kinds pre sc s1 ∧ Inv none s1 ∧
+      s1.backend = .select := by
+    refine ⟨_, rfl, ?_⟩
+    split
+    · exact ⟨handleWake_pc hp h0, handleWake_inv sc i0, by rw [(handleWake_ext sc _).backend]; exact hb⟩
+    · exact ⟨h0, i0, hb⟩
+  obtain ⟨s1, hs1, p1, i1, b1⟩ := h1
+  rw [← hs1]
+  exact selScan_pc hp _ 0 (p1.congr rfl rfl rfl rfl rfl rfl rfl rfl) (i1.congr rfl rfl rfl rfl rfl rfl rfl) b1
+
+theorem selLoop_pc {kinds pre sc} (hp : ClassP pre sc) (f : Nat) : ∀ {s : St},
+    PC none kinds pre sc s → SelC s → SelF none s → Inv none s →
+    PC none kinds pre sc (selLoop sc f s) ∧
+      ((selLoop sc f s).toExit = 1 ∨ Ev.fuel ∈ (selLoop sc f s).trace) := by
+  induction f with
+  | zero =>
+    intro s h _ _ _
+    unfold selLoop
+    exact ⟨PC.emit_other h (by simp) (by simp) (by simp), Or.inr (by simp [emit])⟩
+  | succ f ih =>
+    intro s h hc hf hi
+    unfold selLoop
+    rw [selBad_false hf]
+    simp only [Bool.false_eq_true, ↓reduceIte]
+    have hq : SelC (selQuery s) := by
+      unfold selQuery
+      exact hc.step (SRel.of_eq rfl rfl rfl rfl rfl rfl rfl)
+    have hfq : SelF none (selQuery s) := by unfold selQuery; exact hf.congr rfl rfl rfl rfl
+    have hiq : Inv none (selQuery s) := by unfold selQuery; exact hi.congr rfl rfl rfl rfl rfl rfl rfl
+    have hpq : PC none kinds pre sc (selQuery s) := by
+      unfold selQuery; exact h.congr rfl rfl rfl rfl rfl rfl rfl rfl
+    split
+    · rename_i hz
+      have hr := select_block_none_readable hc hz
+      have hr' : ∀ c ∈ s.ctxList, (s.ds c).readable = false := by
+        rw [List.any_eq_false] at hr
+        intro c hcc
+        cases hx : (s.ds c).readable
+        · rfl
+        · exact absurd hx (hr c hcc)
+      exact ih (idle_pc hp hpq (fun _ => hr')) (idle_selc sc hq hr) (idle_self sc hfq hiq) (idle_inv sc hiq)
+    · have hid : Inv none (emit .disp (selQuery s)) :=
+        inv_emit_of hiq (by simp) (by simp) (by simp) trivial
+      have hcd : SelC (emit .disp (selQuery s)) := hq.step (emit_srel (by simp) _)
+      have hfd : SelF none (emit .disp (selQuery s)) := emit_self (by simp) (by simp) hfq
+      have hpd : PC none kinds pre sc (emit .disp (selQuery s)) :=
+        PC.emit_other hpq (by simp) (by simp) (by simp)
+      have p1 := selDispatch_pc hp hpd hid hq.backend
+      split
+      · rename_i hx
+        exact ⟨p1, Or.inl hx⟩
+      · exact ih p1 (selDispatch_c sc hcd hid) (selDispatch_self sc hfd hid hq.backend)
+          (selDispatch_inv sc hid hq.backend).1
 
 end MgProof.C13
